@@ -157,6 +157,13 @@ theorem baseBuild_withAnn (ig extra : List (List String))
     baseBuild ig extra (.obj (withAnn kvs m A')) = baseBuild ig extra (.obj kvs) :=
   baseBuild_withAnn_of_filter ig extra hm ha (filter_marked_eq hd hp0 hr) hx
 
+theorem multiBuild_withAnn (hs : Hashes) (extra : List (List String))
+    (hm : lookup "metadata" kvs = some (.obj m)) (ls : List DiffBaseLeaf) (e : J) :
+    multiBuild hs extra (.obj (withAnn kvs m A')) e ls = multiBuild hs extra (.obj kvs) e ls :=
+  multiBuild_congr hs extra (by simp only [withAnn]; exact lookup_insert_other _ kvs (by decide))
+    (by simp only [ownerRefs, get?, withAnn, lookup_insert_same, hm,
+          lookup_insert_other _ m (by decide : "ownerReferences" ≠ "annotations")]) ls e
+
 theorem essence_withAnn_of_filter (cfg : Cfg) (extra : List (List String))
     (hm : lookup "metadata" kvs = some (.obj m)) (ha : lookup "annotations" m = some (.obj A))
     (hfilt : A'.filter (fun kv => keepAnnotation (markedPrefixes (keys A')) kv.1) =
@@ -173,7 +180,7 @@ theorem essence_withAnn_of_filter (cfg : Cfg) (extra : List (List String))
     cases l with
     | annotations p k v1 ig => simp only [diffbaseBuild, leafBuild, hb, markKey, hdrs]
     | status f ig => simp only [diffbaseBuild, leafBuild, hb]
-  | multi ls => simp only [diffbaseBuild, hb]
+  | multi ls => simp only [diffbaseBuild, hb, multiBuild_withAnn _ _ hm]
 
 theorem isDRS_withAnn (hm : lookup "metadata" kvs = some (.obj m)) :
     isDRS (.obj (withAnn kvs m A')) = isDRS (.obj kvs) := by
@@ -193,7 +200,7 @@ theorem essence_withAnn (cfg : Cfg) (extra : List (List String))
     cases l with
     | annotations p k v1 ig => simp only [diffbaseBuild, leafBuild, hb, markKey, isDRS_withAnn hm]
     | status f ig => simp only [diffbaseBuild, leafBuild, hb]
-  | multi ls => simp only [diffbaseBuild, hb]
+  | multi ls => simp only [diffbaseBuild, hb, multiBuild_withAnn _ _ hm]
 end
 
 end Kopf.C04
